@@ -186,6 +186,55 @@ pub proof fn lemma_remove_map<T>(kids: Seq<Necessity<Element<T>>>, name: T)
         assert(new == kids);
     }
 }
+/// adding, read as a map operation: `x` becomes the entry of its name, every other entry is untouched (order not constrained)
+pub open spec fn added_map<T>(old: Seq<Necessity<Element<T>>>, new: Seq<Necessity<Element<T>>>, x: Necessity<Element<T>>) -> bool {
+    &&& new.len() == old.len() + 1
+    &&& entry(new, x.val().name) == Some(x)
+    &&& forall|n: T| n != x.val().name ==> #[trigger] entry(new, n) == entry(old, n)
+}
+/// inserting an entry with a NEW name at ANY index (appending = the last index) is that map operation and keeps names unique
+pub proof fn lemma_insert_map<T>(old: Seq<Necessity<Element<T>>>, idx: int, x: Necessity<Element<T>>)
+    requires
+        0 <= idx <= old.len(),
+        kid_idx(old, x.val().name) >= old.len(),
+    ensures
+        added_map(old, old.insert(idx, x), x),
+        uniq_kids(old) ==> uniq_kids(old.insert(idx, x)),
+        forall|t: int| 0 <= t < old.len() + 1 ==> (#[trigger] old.insert(idx, x)[t]) == (if t < idx { old[t] } else if t == idx { x } else { old[t - 1] }),
+{
+    let name = x.val().name;
+    let new = old.insert(idx, x);
+    lemma_kid_idx(old, name);
+    assert(forall|t: int| 0 <= t < new.len() ==> (#[trigger] new[t]) == (if t < idx { old[t] } else if t == idx { x } else { old[t - 1] }));
+    assert forall|t: int| 0 <= t < idx implies (#[trigger] new[t]).val().name != name by { assert(new[t] == old[t]); }
+    lemma_kid_idx_is(new, name, idx);
+    assert forall|n: T| n != name implies #[trigger] entry(new, n) == entry(old, n) by {
+        lemma_kid_idx(old, n);
+        let j = kid_idx(old, n);
+        if j >= old.len() {
+            assert forall|t: int| 0 <= t < new.len() implies (#[trigger] new[t]).val().name != n by {
+                if t < idx { assert(new[t] == old[t]); } else if t > idx { assert(new[t] == old[t - 1]); }
+            }
+            lemma_kid_idx_is(new, n, new.len() as int);
+        } else {
+            let nj = if j < idx { j } else { j + 1 };
+            assert(new[nj] == old[j]);
+            assert forall|t: int| 0 <= t < nj implies (#[trigger] new[t]).val().name != n by {
+                if t < idx { assert(new[t] == old[t]); } else if t > idx { assert(new[t] == old[t - 1]); }
+            }
+            lemma_kid_idx_is(new, n, nj);
+        }
+    }
+    if uniq_kids(old) {
+        assert forall|a: int, b: int| 0 <= a < b < new.len() implies (#[trigger] new[a]).val().name != (#[trigger] new[b]).val().name by {
+            let oa = if a < idx { a } else { a - 1 };
+            let ob = if b < idx { b } else { b - 1 };
+            if a == idx { assert(new[b] == old[ob]); assert(old[ob].val().name != name); }
+            else if b == idx { assert(new[a] == old[oa]); assert(old[oa].val().name != name); }
+            else { assert(new[a] == old[oa] && new[b] == old[ob]); assert(oa < ob); }
+        }
+    }
+}
 /// THEOREM (C16, tree half): child names stay unique under EVERY finite sequence of the public operations
 pub proof fn theorem_c16_all_sequences<T>(kids: Seq<Necessity<Element<T>>>, ops: Seq<TreeOp<T>>)
     requires uniq_kids(kids),
